@@ -254,6 +254,17 @@ let exc_name = function
   | NoDataAllowedErr -> "err:NoDataAllowedErr" | NotFoundErr -> "err:NotFoundErr"
   | InuseAttributeErr -> "err:InuseAttributeErr" | InfoErr -> "err:info"
 
+(* NZ:r  Element::normalize -- the extracted [normalize] of Model/DomNormalize.v (a derived program over [step]:
+   append_data on the Text node in front, remove_child on the element), in the view of the case *)
+let run_normalize st (view : string) (r : (n * n) option) : string =
+  match r with
+  | None -> "na"
+  | Some r ->
+    let merged = String.length view > 0 && view.[0] = 'm' in
+    let (w1, oc) = normalize merged st.world r in
+    st.world <- w1;
+    (match oc with Ok _ -> "ok" | Panicked -> "panic" | _ -> "na")
+
 let () = register "dom" (fun words ->
   match words with
   | view :: _nd :: desc :: ops when String.length desc > 0 && desc.[0] = '@' ->
@@ -325,6 +336,7 @@ let () = register "dom" (fun words ->
              let facts = (match Hashtbl.find_opt tfacts i with Some x -> x | None -> "-") in
              "x:" ^ (if merged then "1" else "0") ^ ":" ^ table_dump st (int_of_n d) facts merged
            | _ -> "na")
+        | None when f.(0) = "NZ" -> run_normalize st view (h 1)
         | None -> "na"
         | Some (Query _) -> "q"
         | Some o ->
